@@ -60,7 +60,7 @@ Inductive ptree :=
 | PError (kind : nat).     (* the real parser returned an error *)
 
 Record case := mkCase {
-  c_id : nat;
+  c_id : N;
   c_toks : list token;
   c_tree : ptree;
   c_writing : option pexpr;
@@ -257,7 +257,7 @@ Definition verdict (c : case) : nat :=
   | k => k
   end.
 
-Definition check_all (cs : list case) : list (nat * nat) :=
+Definition check_all (cs : list case) : list (N * nat) :=
   filter (fun p => negb (Nat.eqb (snd p) 0)) (map (fun c => (c_id c, verdict c)) cs).
 
 (* for replays / debugging *)
